@@ -106,7 +106,10 @@ func VerifC10Prefix() {
 	data, err := a.ToBytes()
 	vsym.Assert(err == nil, "write-ok")
 	var p int
-	if pw := vsym.Param("pw"); pw > 0 {
+	if pe := vsym.Param("pe"); pe > 0 {
+		p = len(data) - 1 - vsym.Choice(pe) // the last pe proper prefixes (1..pe bytes cut off)
+		vsym.Assume(p >= 0)
+	} else if pw := vsym.Param("pw"); pw > 0 {
 		p = vsym.Param("pb") + vsym.Choice(pw) // long streams: prefix lengths in a window
 		vsym.Assume(p < len(data))
 	} else {
